@@ -1094,15 +1094,22 @@ class C04Interrupts(Oracle):
                     regs = [r for r in regs if r <= t0 or any(e[1] == "scope_activate" and e[2] in alarm_anc and t0 < e[0] <= r
                                                               for e in w.events)]
             late = [a for a in acts if co is not None and a > co and not any(co < r <= a for r in regs)]
+            # the enclosing Alarm completed its body and re-armed within two ticks of the cancel: the re-arm resets the
+            # body's nodes, cancelled flag included, before the waiting Watch has seen it (a defect of its own, kept apart)
+            rearm_ctx = ""
+            t_c = [x for x in (co, self.cancelled_at.get(n.id)) if x is not None]
+            if alarm_anc and t_c and any(e[1] == "scope_end" and e[2] in alarm_anc and min(t_c) <= e[0] <= min(t_c) + 2
+                                         for e in w.events):
+                rearm_ctx = "@alarm_rearmed_right_after_cancel"
             if co is not None and late:
                 # the cancel was offered by the run log at request time (tick co complete) and accepted, yet the body was
                 # entered in a later tick
-                self.v("C12", "C12.cancelled_watch_body_ran", n.kind,
+                self.v("C12", "C12.cancelled_watch_body_ran" + rearm_ctx, n.kind,
                        f"{n.kind} {n.arg!r}: cancel offered and accepted after tick {co}, body activated in ticks {late} "
                        f"(registrations {regs})")
             ca = self.cancelled_at.get(n.id)
             if ca is not None and any(a > ca + 1 and not any(ca < r <= a for r in regs) for a in acts):
-                self.v("C04", "C04.body_ran_after_cancel", n.kind,
+                self.v("C04", "C04.body_ran_after_cancel" + rearm_ctx, n.kind,
                        f"{n.kind} {n.arg!r} cancelled in tick {ca} but activated in ticks {acts}")
 
 
